@@ -43,7 +43,7 @@ def run_sim(ctx, name, stakes, byz=(), byz_mode="silent", crashed=(), crash_at=0
         args += ["--byz", ",".join(map(str, byz))]
     if crashed:
         args += ["--crashed", ",".join(map(str, crashed))]
-    summary = ctx.harness(args, timeout=900)
+    summary = ctx.harness(args, timeout=600)
     return out, summary
 
 
